@@ -396,7 +396,7 @@ static void check_offline(int lt, const std::vector<Frame>& fr, const std::strin
     if (!oracle.ok) { violation("offline-filter/ctor-accepts-invalid-filter", "OfflinePacketFilter was constructed for a filter libpcap rejects (" + oracle.err + ") :: " + ctx + " filter='" + expr + "' snap_len=" + std::to_string(snap)); return; }
     // copies: copy-constructed, and assigned over a filter of another expression / link type
     std::unique_ptr<OfflinePacketFilter> copy;
-    OpfBox other; int olt = (int)rng.below(NLT); try { other.make(olt, rng.chance(1, 2) ? "len > 77" : "less 5", 65535, 0); } catch (...) { other.p = nullptr; }
+    OpfBox other; int olt = (int)rng.below(NLT); try { u32 oe = rng.below(4); other.make(olt, oe == 0 ? "len > 77" : oe == 1 ? "less 5" : expr, oe == 3 ? snap : 65535, 0); if (oe >= 2) cnt("offline:assigned-over-same-expression-other-linktype"); } catch (...) { other.p = nullptr; }
     try { copy.reset(new OfflinePacketFilter(*a.p)); if (other.p) { *other.p = *a.p; cnt("offline:assigned"); } }
     catch (...) { violation("offline-filter/copy-throws/" + current_exception_type(), "copying an OfflinePacketFilter threw " + current_exception_type() + " :: " + ctx + " filter='" + expr + "' snap_len=" + std::to_string(snap)); other.p = nullptr; return; }
     const OfflinePacketFilter* objs[3] = {a.p, copy.get(), other.p};
